@@ -5,6 +5,7 @@ use crate::{
 };
 use sauron::{html::*, svg, svg::attributes::*, Node};
 use std::{borrow::Cow, cmp::Ordering, fmt};
+use unicode_width::UnicodeWidthChar;
 
 /// A horizontal cell text
 /// Operated based on cell
@@ -23,14 +24,26 @@ impl CellText {
         CellText { start, content }
     }
 
+    /// the number of columns this text occupies in the grid:
+    /// a double-width character takes 2, its NUL filler none, anything else 1
+    fn columns(&self) -> i32 {
+        self.content
+            .chars()
+            .map(|ch| match ch {
+                '\0' => 0,
+                _ => ch.width().unwrap_or(1).max(1) as i32,
+            })
+            .sum()
+    }
+
     fn end_cell(&self) -> Cell {
-        Cell::new(self.start.x + self.content.len() as i32, self.start.y)
+        Cell::new(self.start.x + self.columns(), self.start.y)
     }
 
     /// get the cells of this text
     /// TODO: use iterator
     fn cells(&'_ self) -> impl IntoIterator<Item = Cell> + '_ {
-        let range = self.start.x..(self.start.x + self.content.len() as i32);
+        let range = self.start.x..(self.start.x + self.columns());
         range.map(move |x| Cell::new(x, self.start.y))
     }
 
@@ -50,8 +63,8 @@ impl CellText {
     /// text can merge if they are next to each other and at the same line
     pub(crate) fn can_merge(&self, other: &Self) -> bool {
         self.start.y == other.start.y
-            && (self.start.x + self.content.len() as i32 == other.start.x
-                || other.start.x + other.content.len() as i32 == self.start.x)
+            && (self.start.x + self.columns() == other.start.x
+                || other.start.x + other.columns() == self.start.x)
     }
 
     pub(crate) fn merge(&self, other: &Self) -> Option<Self> {
